@@ -2,6 +2,7 @@ package lat
 
 import (
 	"fmt"
+	"time"
 
 	"github.com/lyraproj/pcore/px"
 	"github.com/lyraproj/pcore/types"
@@ -103,6 +104,19 @@ func encTy(t px.Type, depth int) Ty {
 			}
 		}
 		return Tspan(lo, hi)
+	case *types.TimestampType:
+		slo, nlo, shi, nhi := int64(0), int64(0), int64(TsMaxSec), int64(TsMaxNs)
+		if v, _ := t.Get("from"); v != nil {
+			if ts, ok := v.(*types.Timestamp); ok {
+				slo, nlo = TsParts(time.Time(*ts))
+			}
+		}
+		if v, _ := t.Get("to"); v != nil {
+			if ts, ok := v.(*types.Timestamp); ok {
+				shi, nhi = TsParts(time.Time(*ts))
+			}
+		}
+		return Tstamp(slo, nlo, shi, nhi)
 	case *types.EnumType:
 		return Enum(t.IsCaseInsensitive(), append([]string{}, t.Strings()...)...)
 	case *types.PatternType:
@@ -207,6 +221,9 @@ func encVal(v px.Value) Val {
 		return VBin(string(v.Bytes()))
 	case types.Timespan:
 		return VTs(int64(v.Duration()))
+	case *types.Timestamp:
+		s, n := TsParts(time.Time(*v))
+		return VTsv(s, n)
 	case px.StringValue:
 		return VS(v.String())
 	case *types.Array:
